@@ -39,6 +39,8 @@ def settings_kwargs(cfg, seed):
     if cfg["burn"][0] == "count":
         kw["n_burn_in_iter"] = cfg["burn"][1]
         kw["n_burn_in_iter_frac"] = None
+    elif cfg["burn"][0] == "frac8":
+        kw["n_burn_in_iter_frac"] = cfg["burn"][1] / 8
     else:
         kw["n_burn_in_iter_frac"] = cfg["burn"][1] / 10
     if cfg.get("sampler_pop"):
